@@ -1075,7 +1075,7 @@ Proof.
   destruct HS as (HS1 & HS2).
   destruct (hfind h0 c) as [n|] eqn:F0; [|exfalso; apply LV; auto].
   rewrite (HS2 c n F0 RC).
-  destruct (negb custom && has_userinfo n); [exact Logic.I|].
+  destruct (copy_refused custom n); [exact Logic.I|].
   destruct SI as (I & IDS & NP).
   set (me := nxt s).
   assert (FME : hfind (heap_of s) me = None).
@@ -1083,7 +1083,7 @@ Proof.
     assert (me < nxt s) by (apply IDS; unfold live; congruence). unfold me in *. lia. }
   assert (H0ME : hfind h0 me = None).
   { destruct (hfind h0 me) eqn:E; [|reflexivity]. rewrite (BO me _ E) in FME. discriminate. }
-  set (nd := mkNode 1 (nkind n) [] (if custom then Some 0 else None) custom).
+  set (nd := mkNode 1 (nkind n) [] (copy_cb custom n) (copy_ud custom n)).
   set (s1 := mkSt ((me, nd) :: heap_of s) (me + 1)).
   assert (SI1 : SInv s1 (upd L me 1)).
   { split; [apply inv_alloc; auto|]. split; [|simpl; unfold me; lia].
@@ -1171,7 +1171,7 @@ Qed.
 Definition cb_after (s s' : state) (evs : list ev) (i : id) (n' : node) : Prop :=
   (exists n, hfind (heap_of s) i = Some n /\ cb n' = cb n /\ forall t, ~ In (i, t) (rels evs)) \/
   cb n' = None \/
-  (cb n' = Some 0 /\ hfind (heap_of s) i = None) \/
+  ((exists t, cb n' = Some t /\ t <= 0) /\ hfind (heap_of s) i = None) \/
   (cb n' = Some (nxt s) /\ nxt s < nxt s').
 
 Record SFacts (s s' : state) (evs : list ev) : Prop := mkSF {
@@ -1207,9 +1207,11 @@ Proof.
   intros j LJ. rewrite N. apply IDS. intro X. apply LJ. apply (hs_dead _ _ _ HS). auto.
 Qed.
 
-(* new nodes come with the registration made at creation (number 0) or with none *)
+(* new nodes come with the registration made at creation (number 0), with the library's own
+   retained-text registration (number -1), or with none *)
 Definition newcb (s s' : state) : Prop :=
-  forall j n', hfind (heap_of s') j = Some n' -> hfind (heap_of s) j = None -> cb n' = Some 0 \/ cb n' = None.
+  forall j n', hfind (heap_of s') j = Some n' -> hfind (heap_of s) j = None ->
+    (exists t, cb n' = Some t /\ t <= 0) \/ cb n' = None.
 
 Lemma sfacts_of_grows : forall s s', grows s s' (fun _ => True) -> newcb s s' -> SFacts s s' [].
 Proof.
@@ -1314,7 +1316,8 @@ Proof.
     + split; [simpl; lia|]. split.
       * intros j n _ H. simpl. destruct (nxt s =? j) eqn:E; [apply Z.eqb_eq in E; subst; congruence|auto].
       * intros j H H2. simpl in *. destruct (nxt s =? j) eqn:E; [apply Z.eqb_eq in E; lia|congruence].
-    + intros j n' H H2. simpl in H. destruct (nxt s =? j); [inversion H; subst; simpl; auto|congruence].
+    + intros j n' H H2. simpl in H. destruct (nxt s =? j); [inversion H; subst; simpl|congruence].
+      left. exists 0. split; [reflexivity|lia].
 Qed.
 
 Lemma get_good : forall s L i, SInv s L -> live (heap_of s) i -> step_good s L (OGet i).
@@ -1441,9 +1444,9 @@ Lemma copy_f_cbext : forall f cu hs s src s' r, WF s -> copy_f f cu hs s src = C
 Proof.
   induction f as [|f IH]; intros cu hs s src s' r W H; simpl in H; [discriminate|].
   destruct (hfind hs src) as [n|]; [|discriminate].
-  destruct (negb cu && has_userinfo n); [discriminate|].
+  destruct (copy_refused cu n); [discriminate|].
   destruct (copy_kids _ _ _ _) as [s2| | |] eqn:CK; try discriminate. inversion H; subst.
-  set (s1 := mkSt ((nxt s, mkNode 1 (nkind n) [] (if cu then Some 0 else None) cu) :: heap_of s) (nxt s + 1)) in *.
+  set (s1 := mkSt ((nxt s, mkNode 1 (nkind n) [] (copy_cb cu n) (copy_ud cu n)) :: heap_of s) (nxt s + 1)) in *.
   assert (W1 : WF s1).
   { intros j Hj. simpl in *. destruct (nxt s =? j) eqn:E; [apply Z.eqb_eq in E; lia|].
     specialize (W j Hj). lia. }
@@ -1452,7 +1455,9 @@ Proof.
     - intros j m Hj. simpl. destruct (nxt s =? j) eqn:E; [|eauto].
       apply Z.eqb_eq in E. subst j. assert (nxt s < nxt s) by (apply W; congruence). lia.
     - intros j n' Hj H2. simpl in Hj. destruct (nxt s =? j); [|congruence].
-      inversion Hj; subst. simpl. destruct cu; auto. }
+      inversion Hj; subst. simpl. unfold copy_cb, lib_reg.
+      destruct cu; [left; exists 0; split; [reflexivity|lia]|].
+      destruct (has_lib_reg n); [left; exists (-1); split; [reflexivity|lia]|right; reflexivity]. }
   destruct (copy_kids_cbext _ (nxt s) (fun s0 c s0' r0 W0 E0 => IH cu (hdel hs src) s0 c s0' r0 W0 E0)
               _ _ _ W1 CK) as (W2 & X2).
   split; [auto|eapply cbext_trans; eauto].
@@ -1496,12 +1501,50 @@ Proof.
     exists s', ret, evs. split; [auto|]. split; [|auto]. unfold Ltransfer in SI'. destruct (ret =? 0); auto.
 Qed.
 
+Lemma newdbl_good : forall s L, SInv s L -> step_good s L ONewDoubleS.
+Proof.
+  intros s L (I & IDS & NP).
+  assert (F : hfind (heap_of s) (nxt s) = None).
+  { destruct (hfind (heap_of s) (nxt s)) eqn:E; [|reflexivity].
+    assert (nxt s < nxt s) by (apply IDS; unfold live; congruence). lia. }
+  exists (mkSt ((nxt s, mkNode 1 (KScalar TDouble) [] (Some lib_reg) true) :: heap_of s) (nxt s + 1)), (nxt s), [].
+  split; [reflexivity|]. split.
+  - split; [apply inv_alloc; auto|]. split; [|simpl; lia].
+    intros j LJ. unfold live in LJ. simpl in *. destruct (nxt s =? j) eqn:E.
+    + apply Z.eqb_eq in E. lia.
+    + assert (j < nxt s) by (apply IDS; auto). lia.
+  - apply sfacts_of_grows.
+    + split; [simpl; lia|]. split.
+      * intros j n _ H. simpl. destruct (nxt s =? j) eqn:E; [apply Z.eqb_eq in E; subst; congruence|auto].
+      * intros j H H2. simpl in *. destruct (nxt s =? j) eqn:E; [apply Z.eqb_eq in E; lia|congruence].
+    + intros j n' H H2. simpl in H. destruct (nxt s =? j); [inversion H; subst; simpl|congruence].
+      left. exists (-1). split; [reflexivity|lia].
+Qed.
+
+Lemma setval_good : forall s L i w, SInv s L -> live (heap_of s) i -> step_good s L (OSetVal i w).
+Proof.
+  intros s L i w SI LV.
+  assert (SAME : forall ret, exists s' r evs, ROk s ret [] = ROk s' r evs /\ SInv s' L /\ SFacts s s' evs).
+  { intros. exists s, ret, []. split; [reflexivity|]. split; [auto|].
+    apply sfacts_of_hstruct; [auto|apply hstruct_refl]. }
+  destruct (hfind (heap_of s) i) as [n|] eqn:F; [|exfalso; apply LV; auto].
+  unfold step_good. simpl. unfold set_value. rewrite F.
+  destruct (nkind n); try apply SAME.
+  destruct (styp_eqb t (setter_type w)); [|apply SAME].
+  destruct w; try apply SAME.
+  destruct (has_lib_reg n); [|apply SAME].
+  destruct (setud_good s L i false false SI LV) as (s' & ret & evs & E & SI' & SF).
+  simpl in E. rewrite E. exists s', 1, evs. split; [reflexivity|]. simpl in SI'. auto.
+Qed.
+
 (* every admissible operation succeeds (no undefined behaviour, fuel suffices), keeps the
    invariant with the documented change of the client's ledger *)
 Theorem step_preserves : forall s L o, SInv s L -> admissible s L o -> step_good s L o.
 Proof.
   intros s L o SI A. pose proof SI as (I & IDS & NP). destruct o; simpl in A.
   - apply new_good; auto.
+  - apply newdbl_good; auto.
+  - apply setval_good; auto.
   - apply get_good; auto.
   - apply put_good; auto.
   - destruct A as (K & T). apply (good_of_res_ok s L _ (Ltransfer L v)); auto.
@@ -1599,11 +1642,11 @@ Proof.
   pose proof (sf_nxt _ _ _ SF) as NX.
   assert (AFTER : forall i t n', hfind (heap_of s') i = Some n' -> cb n' = Some t ->
             (exists n, hfind (heap_of s) i = Some n /\ cb n = Some t /\ forall u, ~ In (i, u) (rels evs)) \/
-            (t = 0 /\ hfind (heap_of s) i = None) \/ (t = nxt s /\ nxt s < nxt s')).
-  { intros i t n' H C. destruct (sf_after _ _ _ SF i n' H) as [(n & Hn & E & NR)|[E|[(E & D)|(E & D)]]].
+            (t <= 0 /\ hfind (heap_of s) i = None) \/ (t = nxt s /\ nxt s < nxt s')).
+  { intros i t n' H C. destruct (sf_after _ _ _ SF i n' H) as [(n & Hn & E & NR)|[E|[((t0 & E & T0) & D)|(E & D)]]].
     - left. exists n. split; [auto|]. split; [congruence|auto].
     - congruence.
-    - right. left. split; [congruence|auto].
+    - right. left. split; [|auto]. assert (t = t0) by congruence. lia.
     - right. right. split; [congruence|auto]. }
   split; [|split].
   - rewrite rels_app. apply nodup_app; [auto|apply (sf_relnodup _ _ _ SF)|].
@@ -1873,7 +1916,7 @@ Lemma copy_f_root : forall f cu hs s src s1 r, copy_f f cu hs s src = COk s1 r -
 Proof.
   intros f cu hs s src s1 r H. destruct f; simpl in H; [discriminate|].
   destruct (hfind hs src); [|discriminate].
-  destruct (negb cu && has_userinfo n); [discriminate|].
+  destruct (copy_refused cu n); [discriminate|].
   destruct (copy_kids _ _ _ _); try discriminate. inversion H; reflexivity.
 Qed.
 
@@ -1950,7 +1993,7 @@ Qed.
 (* ------------------------------------------------------------------ non-vacuity *)
 (* h1 = {} ; h2 = scalar ; add h1 "k" h2 ; get h2 ; put h1 (destroys 1 only) ; use h2 ; put h2 *)
 Definition ex_ops : list op :=
-  [ONew KObject; ONew KScalar; OObjAdd 1 [107] (Some 2); OGet 2; OPut 1; OUse 2; OPut 2].
+  [ONew KObject; ONew (KScalar TInt); OObjAdd 1 [107] (Some 2); OGet 2; OPut 1; OUse 2; OPut 2].
 
 Lemma ex_scalar_no_reach : forall h a b n, hfind h a = Some n -> children n = [] -> a <> b -> ~ reach h a b.
 Proof.
@@ -2040,7 +2083,7 @@ Proof. repeat eexists; reflexivity. Qed.
 
 (* non-vacuity: a registration with NULL userdata is released when it is replaced, the reset
    releases the next one, the destruction then has nothing left to call *)
-Definition ex_reg_ops : list op := [ONew KScalar; OSetUd 1 false true; OSetUd 1 false false; OPut 1].
+Definition ex_reg_ops : list op := [ONew (KScalar TInt); OSetUd 1 false true; OSetUd 1 false false; OPut 1].
 
 Lemma ex_regs :
   adm_hist init_state L0 ex_reg_ops /\
@@ -2052,3 +2095,44 @@ Proof.
     unfold L0, upd. simpl. lia.
   - eexists. eexists. eexists. split; [cbv -[upd upd_opt L0]; reflexivity|]. split; reflexivity.
 Qed.
+
+(* ------------------------------------------------------------------ which calls may end a registration *)
+(* A value setter never ends a caller's registration, whatever serializer function, userdata
+   and callback it was made with: the only registration such a call can release is the
+   library's own retained-text one (number -1, json_object_new_double_s), and every node that
+   does not carry that one — in particular every node with a caller's registration — is left
+   exactly as it was (same callback, same userdata flag, same everything). *)
+Theorem value_setter_keeps_registrations : forall s i w s' ret evs,
+  step s (OSetVal i w) = ROk s' ret evs ->
+  (forall j t, In (j, t) (rels evs) -> j = i /\ t = lib_reg /\ w = SDouble) /\
+  (forall j n, hfind (heap_of s) j = Some n -> cb n <> Some lib_reg -> hfind (heap_of s') j = Some n) /\
+  (ret = 0 \/ ret = 1).
+Proof.
+  intros s i w s' ret evs H. simpl in H. unfold set_value in H.
+  destruct (hfind (heap_of s) i) as [n|] eqn:F; [|discriminate].
+  assert (SAME : forall r, ROk s r [] = ROk s' ret evs -> (r = 0 \/ r = 1) ->
+            (forall j t, In (j, t) (rels evs) -> j = i /\ t = lib_reg /\ w = SDouble) /\
+            (forall j n, hfind (heap_of s) j = Some n -> cb n <> Some lib_reg -> hfind (heap_of s') j = Some n) /\
+            (ret = 0 \/ ret = 1)).
+  { intros r E R. inversion E; subst. split; [simpl; tauto|]. split; auto. }
+  destruct (nkind n); try (apply (SAME 0); auto; fail).
+  destruct (styp_eqb t (setter_type w)); [|apply (SAME 0); auto].
+  destruct w; try (apply (SAME 1); auto; fail).
+  destruct (has_lib_reg n) eqn:LR; [|apply (SAME 1); auto].
+  unfold set_ud in H. rewrite F in H. inversion H; subst. clear H.
+  unfold has_lib_reg in LR. destruct (cb n) as [t0|] eqn:CB; [|discriminate].
+  apply Z.eqb_eq in LR. subst t0.
+  split; [|split; [|auto]].
+  - intros j u X. simpl in X. destruct X as [X|X]; [inversion X; subst; auto|tauto].
+  - intros j m Hj NL. cbn [heap_of]. rewrite hfind_hset. destruct (i =? j) eqn:E; [|auto].
+    apply Z.eqb_eq in E. subst j. rewrite F in Hj. inversion Hj; subst. congruence.
+Qed.
+
+(* the documented exception is real: set_double on a node made by json_object_new_double_s
+   drops the retained text (and calls no callback of the caller: the event carries number -1) *)
+Lemma ex_set_double_drops_text :
+  exists s1 s2, step init_state ONewDoubleS = ROk s1 1 [] /\
+    step s1 (OSetVal 1 SDouble) = ROk s2 1 [EUser 1 lib_reg] /\
+    option_map cb (hfind (heap_of s2) 1) = Some None /\
+    step s2 (OSetVal 1 SDouble) = ROk s2 1 [] /\ step s2 (OSetVal 1 SInt) = ROk s2 0 [].
+Proof. repeat eexists; reflexivity. Qed.
